@@ -155,7 +155,7 @@ func main() {
 	}
 	sort.Strings(res.Props)
 	var solverMs int64
-	nProved, nFail, nVac := 0, 0, 0
+	nProved, nFail, nVac, nUnreach := 0, 0, 0, 0
 	for i, o := range obls {
 		oo := OblOut{Name: o.Name, Kind: o.Kind, Func: o.Func, Props: o.Props, Text: o.Text, Expect: o.Expect, Result: o.Res}
 		if o.Pos.IsValid() {
@@ -177,12 +177,16 @@ func main() {
 		switch o.Res.Status {
 		case "proved", "ok":
 			nProved++
+		case "unreachable":
+			nProved++
+			nUnreach++
+			fmt.Printf("%-9s %-70s %s\n", "UNREACHABLE", o.Name, o.Text+" @"+oo.Pos)
 		case "vacuous":
 			nVac++
 		default:
 			nFail++
 		}
-		if *verbose || (o.Res.Status != "proved" && o.Res.Status != "ok") {
+		if *verbose || (o.Res.Status != "proved" && o.Res.Status != "ok" && o.Res.Status != "unreachable") {
 			fmt.Printf("%-9s %-70s %s %dms  %s\n", o.Res.Status, o.Name, o.Res.Solver, o.Res.Ms, o.Text)
 		}
 	}
@@ -193,8 +197,8 @@ func main() {
 	}
 	res.SolverS = float64(solverMs) / 1000
 	res.WallS = time.Since(start).Seconds()
-	fmt.Printf("govc: %d functions, %d obligations: %d ok, %d failed, %d vacuous; solver %.1fs wall %.1fs\n",
-		len(reports), len(obls), nProved, nFail, nVac, res.SolverS, res.WallS)
+	fmt.Printf("govc: %d functions, %d obligations: %d ok (%d soft-unreachable paths), %d failed, %d vacuous; solver %.1fs wall %.1fs\n",
+		len(reports), len(obls), nProved, nUnreach, nFail, nVac, res.SolverS, res.WallS)
 	if *out != "" {
 		// parameter leaves for replay
 		type pl struct {
